@@ -635,6 +635,18 @@ func (p *pipeline) compareAll() (string, string) {
 				// known finding (known-findings.json): an accepted operation carried an Ed25519 verification key type over a JWK
 				// that is no Ed25519 key; this DID is not compared any further
 				d.unresolvable = true
+				// whatever keeps the anchored state from being shown: the long-form DID must not be answered with the create
+				// operation's document and commitments as if nothing had been anchored since
+				if d.longForm != "" && d.anchoredN > 1 {
+					var lr *document.ResolutionResult
+					var lerr error
+					if pn := ev.Catch(func() { lr, lerr = p.handler.ResolveDocument(d.longForm) }); pn != "" {
+						return "C20/panic", "ResolveDocument panicked: " + pn
+					}
+					if lerr == nil && lr != nil && lr.Document != nil {
+						return "C20/long-form-answers-initial-state", fmt.Sprintf("DID %d has %d anchored operations and its short form fails with %q; its long form is answered from the initial state: %s", i, d.anchoredN, err.Error(), js(lr))
+					}
+				}
 			}
 			return "C20/resolution", fmt.Sprintf("DID %d (%s) with %d anchored and %d unpublished accepted operations does not resolve: %v", i, did, d.anchoredN, unpubN, err)
 		}
@@ -822,7 +834,9 @@ func TestPipeline(t *testing.T) {
 						// a key whose type demands other key material than its JWK holds: the node may refuse the request, but
 						// if it accepts it the DID must stay resolvable
 						a.Patches = append(a.Patches, map[string]interface{}{"action": "add-public-keys", "publicKeys": []interface{}{map[string]interface{}{"id": "odd", "type": rapid.SampledFrom([]string{"Ed25519VerificationKey2018", "Ed25519VerificationKey2020"}).Draw(t, "edType"), "purposes": []interface{}{"authentication"},
-							"publicKeyJwk": rapid.SampledFrom([]interface{}{map[string]interface{}{"kty": "EC", "crv": "P-256", "x": "urgvYcEe6u3JFGEdiXafvK8jwdJB52aOHBVQef3MFOk", "y": "UUJv4kE49CaRoSvgi9QI7V5J1pSqIUKWGoyPHEZ400s"}, map[string]interface{}{"kty": "OKP", "crv": "Ed25519", "x": "AAAA"}}).Draw(t, "foreignJwk")}}})
+							"publicKeyJwk": rapid.SampledFrom([]interface{}{map[string]interface{}{"kty": "EC", "crv": "P-256", "x": "urgvYcEe6u3JFGEdiXafvK8jwdJB52aOHBVQef3MFOk", "y": "UUJv4kE49CaRoSvgi9QI7V5J1pSqIUKWGoyPHEZ400s"}, map[string]interface{}{"kty": "OKP", "crv": "Ed25519", "x": "AAAA"},
+								// (the validator asks for kty, crv and x to be present; the JOSE library echoes an unknown kty in its error)
+								map[string]interface{}{"kty": "not found", "crv": "Ed25519", "x": "11qYAYKxCrfVS_7TyWQHOg7hcvPapiMlrwIaaPcHURo"}}).Draw(t, "foreignJwk")}}})
 						p.feat["key-material-mismatch-submitted"] = true
 					}
 					a.NextUpdate = asm.Commit(next, cl.code)
